@@ -35,6 +35,27 @@ CLAIMED = {
         text="Seeded histories of laws/applies_to assignments and universe constructions; u.laws is L iff L.applies_to is u over every known pair after every step.",
         note="Law sets built without applies_to=; what a displaced partner receives is not dictated beyond the invariant.",
     ),
+    "C17": dict(
+        cat="exploration",
+        ref="DESIGN.md 4/C17",
+        technique="deterministic simulation: seeded histories over process-global registries shared by six related classes, colliding argument values, per-class key->instance model, every live key of every class re-queried after every step",
+        text="Seeded histories of constructions, add_mapping, drop, check, get_all and clear across classes sharing metaclass registries, against a per-class model; isolation is probed by re-querying all live keys after each operation.",
+        note="Key equality = Python equality of (args, sorted-kwargs JSON) or of the custom function's value. Whether dropping an absent key raises is not specified.",
+    ),
+    "C18": dict(
+        cat="exploration",
+        ref="DESIGN.md 4/C18",
+        technique="deterministic simulation: seeded histories of constructions and targeted/global clears over a class, two subclass levels and an unrelated class sharing one process-global table; cls->instance model, all live classes re-checked after every step",
+        text="Seeded interleavings of constructions (arbitrary arguments) and clears; identity, __init__ count and first-call arguments checked against the model after every step.",
+        note="The global table is emptied through the public clear at run start; classes are fresh per run.",
+    ),
+    "C20": dict(
+        cat="exploration",
+        ref="DESIGN.md 4/C20",
+        technique="deterministic simulation: the random module as a nondeterminism seam - reseeded, continued and adversarially biased generator states; structural oracle and same-state reproducibility on every call",
+        text="Seeded search over (count, edge type, connectivity, ensurelink) x generator states, including draws forced to the ends of their range; each call repeated from the same state must rebuild the same graph.",
+        note="Biased draws patch random.randint/random.sample during the call only; each returned value is one the real generator can produce.",
+    ),
 }
 
 NOT_APPLICABLE = {
@@ -48,7 +69,7 @@ NOT_APPLICABLE = {
     "C16": "A text formatter of the current state; nothing a simulator controls enters it (DESIGN 4/C14-16).",
 }
 
-PENDING = {k: 'check not built yet in this commit (claimed in DESIGN.md; machinery in progress)' for k in ['C05','C10','C11','C12','C13','C17','C18','C20']}
+PENDING = {k: 'check not built yet in this commit (claimed in DESIGN.md; machinery in progress)' for k in ['C05','C10','C11','C12','C13']}
 
 
 def main():
